@@ -434,6 +434,15 @@ class InstanceWriteProvider(BaseProvider):
         if self.is_association(creation_class):
             assoc_namespaces = self.find_multins_association_ref_namespaces(
                 original_instance, namespace)
+            # Look up the instance stores of the namespaces that the
+            # reference properties no longer name before anything is
+            # modified, so that a namespace that does not exist is detected
+            # while the CIM repository is still unchanged.
+            new_assoc_namespaces = NocaseList(assoc_namespaces)
+            stale_stores = [
+                (ns, self.cimrepository.get_instance_store(ns))
+                for ns in old_assoc_namespaces
+                if ns not in new_assoc_namespaces]
             if assoc_namespaces:
                 # It is a multi-namespace association instance. Validate
                 # characteristics of other namespaces and insert the same
@@ -445,14 +454,11 @@ class InstanceWriteProvider(BaseProvider):
                                       original_instance)
             # Remove the copies of the instance in the namespaces that its
             # reference properties no longer name.
-            new_assoc_namespaces = NocaseList(assoc_namespaces)
-            for ns in old_assoc_namespaces:
-                if ns not in new_assoc_namespaces:
-                    old_path = original_instance.path.copy()
-                    old_path.namespace = ns
-                    old_store = self.cimrepository.get_instance_store(ns)
-                    if old_store.object_exists(old_path):
-                        old_store.delete(old_path)
+            for ns, old_store in stale_stores:
+                old_path = original_instance.path.copy()
+                old_path.namespace = ns
+                if old_store.object_exists(old_path):
+                    old_store.delete(old_path)
             return
 
         # Replace the instance in the CIM repository with the local copy.
